@@ -446,7 +446,7 @@ PROPS["C12"] = {
 }
 
 PROPS["C18"] = {
-    "lean": ["WsVerif.Props.C18", "WsVerif.Props.C06Sessions", "WsVerif.Props.C14", "WsVerif.Bridge.C18"],
+    "lean": ["WsVerif.Props.C18", "WsVerif.Props.C06Sessions", "WsVerif.Props.C04ReadDataSkip", "WsVerif.Props.C08ReadData", "WsVerif.Props.C14", "WsVerif.Bridge.C18"],
     "rule": "Differential: an instance is driven through a history, reset, driven through an `after` sequence; a freshly constructed instance "
             "with the same configuration is driven through the same `after` sequence; both observations (every result, every destination "
             "write) must be equal. wsutil.Writer.Reset: 11 histories (unflushed data, several fragments, flushed message, Grow, extension "
@@ -477,7 +477,7 @@ PROPS["C18"] = {
                   "a constructor whatever was Put; wsflate.Writer.Reset, the suffixed reader's reset, UTF8Reader.Reset, "
                   "CipherReader/Writer.Reset and Extension.Reset equal the freshly constructed values. The unchanged tree violated the "
                   "property: F4 (Writer.Reset kept the sticky write error: a reused writer never wrote again) and F11 (UTF8Reader.Reset "
-                  "kept the accepted counter) - found by the differential oracle, repaired by fix commits 61d761f and ee45f83.",
+                  "kept the accepted counter) - found by the differential oracle, repaired by fix commits 61d761f and ee45f83. Readers over histories: after ANY sequence of pings, pongs and discarded (unwanted) messages the reader the ReadData loop holds is idle again with a fresh validator, and the next message is read exactly as by a new reader (C04ReadDataSkip.loop_skip, C08ReadData.loop_history / readData_text_after_history).",
     "level_note": "Trusted: Lean kernel, the models named above, harness.",
 }
 
